@@ -723,6 +723,7 @@ func (st *State) unop(f *Frame, x *ssa.UnOp) Value {
 		}
 	case token.ARROW:
 		st.res.note("channel receive yields an arbitrary value")
+		st.countRecv(v, "true")
 		return st.freshValue("recv", T)
 	}
 	return st.freshValue("unop", T)
@@ -1239,5 +1240,26 @@ func (st *State) sel(x *ssa.Select) Value {
 		vs = append(vs, st.freshValue("sel_recv", tup.At(i).Type()))
 	}
 	st.res.note("select modelled as nondeterministic choice with arbitrary received values")
+	// ghost bookkeeping: recvs[ch] counts the values THIS execution received from ch
+	for i, s := range x.States {
+		if s.Dir == types.RecvOnly {
+			st.countRecv(st.eval(s.Chan), eq(idx.Term, bvInt(int64(i), 64)))
+		}
+	}
 	return Value{T: x.Type(), S: "Tuple", Tuple: vs}
+}
+
+// countRecv bumps the ghost array recvs at channel ch when cond holds (if the ghost is declared).
+func (st *State) countRecv(ch Value, cond string) {
+	g := st.eng.cs.Ghosts["recvs"]
+	if g == nil || ch.Term == "" {
+		return
+	}
+	_, s := st.ghostType(g)
+	cur := st.heapGet(st.heap, "ghost_recvs", s)
+	upd := app("store", cur, ch.Term, app("+", app("select", cur, ch.Term), "1"))
+	if cond != "true" {
+		upd = ite(cond, upd, cur)
+	}
+	st.heap.m["ghost_recvs"] = st.define("ghost_recvs", upd, s)
 }
